@@ -48,7 +48,7 @@ def perm_case(draw):
     big = draw(st.integers(0, 7)) == 0
     nmax = (24 if big else 10) if gs["base"] == "wasserstein" else (200 if big else 14)
     p = draw(gens.p_spec(pkinds=gens.STRUCTURED_P, n_min=1, n_max=nmax, k_max=32 if big else 6, scales=[0.05, 0.5, 2.0, 8.0, 20.0]))
-    return {"g": gs, "p": p, "x": draw(gens.x_spec()), "rseed": draw(gens.seeds)}
+    return {"g": gs, "p": p, "x": draw(gens.x_spec(kinds=gens.LOWLEVEL_KINDS)), "rseed": draw(gens.seeds)}
 
 
 def oracle_perm(case):
@@ -107,7 +107,7 @@ def empty_case(draw):
     gs = draw(objs.gemini_spec(foreign=True))
     nmax = 9 if gs["base"] == "wasserstein" else 12
     return {"g": gs, "p": draw(gens.p_spec(pkinds=gens.STRUCTURED_P, n_min=1, n_max=nmax, k_min=1, k_max=5, scales=[0.05, 0.5, 2.0])),
-            "x": draw(gens.x_spec()), "pos": draw(st.integers(0, 5))}
+            "x": draw(gens.x_spec(kinds=gens.LOWLEVEL_KINDS)), "pos": draw(st.integers(0, 5))}
 
 
 def oracle_empty(case):
@@ -153,7 +153,7 @@ def closed_case(draw):
     dead = draw(st.lists(st.booleans(), min_size=K, max_size=K))
     if all(dead):
         dead[0] = False
-    return {"g": gs, "n": n, "K": K, "rows": rows, "dead": dead, "pseed": draw(gens.seeds), "x": draw(gens.x_spec()),
+    return {"g": gs, "n": n, "K": K, "rows": rows, "dead": dead, "pseed": draw(gens.seeds), "x": draw(gens.x_spec(kinds=gens.LOWLEVEL_KINDS)),
             "same_rows": draw(st.booleans())}
 
 
@@ -202,7 +202,7 @@ def oracle_closed(case):
 @st.composite
 def hard_case(draw):
     return {"K": draw(st.integers(2, 8)), "m": draw(st.integers(1, 6)), "extra_empty": draw(st.integers(0, 2)),
-            "rseed": draw(gens.seeds), "via": draw(st.sampled_from(["MI", "KLGEMINI", "name:mi", "name:kl_ova"]))}
+            "rseed": draw(gens.seeds), "via": draw(st.sampled_from(["MI", "KLGEMINI", "name:mi", "name:kl_ova", "KLGEMINI:reconfigured"]))}
 
 
 def oracle_hard(case):
@@ -215,7 +215,11 @@ def oracle_hard(case):
     P = np.zeros((n, K + case["extra_empty"]))
     P[np.arange(n), labels] = 1.0
     g = {"MI": lambda: G.MI(), "KLGEMINI": lambda: G.KLGEMINI(ovo=False), "name:mi": lambda: _str_to_gemini("mi"),
-         "name:kl_ova": lambda: _str_to_gemini("kl_ova")}[case["via"]]()
+         "name:kl_ova": lambda: _str_to_gemini("kl_ova"), "KLGEMINI:reconfigured": lambda: G.KLGEMINI(ovo=True)}[case["via"]]()
+    if case["via"] == "KLGEMINI:reconfigured":
+        # used one-vs-one first, then switched to one-vs-all through its public attribute
+        g(rs.dirichlet(np.ones(3), size=5), None, return_grad=bool(case["m"] % 2))
+        g.ovo = False
     v, gr = evaluate(g, P, None, case["via"])
     if abs(v - np.log(K)) > 1e-9:
         raise Violation(f"{case['via']}: mutual information of a balanced hard {K}-partition of {n} samples is {v!r}, "
